@@ -16,6 +16,7 @@ import (
 	"go/types"
 	"reflect"
 	"sort"
+	"strconv"
 	"strings"
 
 	"golang.org/x/tools/go/packages"
@@ -48,7 +49,7 @@ var fnWhitelist = map[string][]string{
 		"Info.Validate", "Export.Validate", "isContainedIn", "Exports.Validate", "Exports.HasExportContainingSubject", "Mapping.Validate",
 		"CreateValidationResults", "ResponsePermission.Validate", "Permissions.Validate",
 		"OperatorLimits.IsEmpty", "OperatorLimits.Validate", "ExternalAuthorization.Validate",
-		"UserScope.Validate", "SigningKeys.Validate", "Account.Validate", "AccountClaims.Validate", "GenericClaims.Validate", "AuthorizationRequestClaims.Validate", "AuthorizationResponseClaims.Validate", "TimeRange.Validate", "Limits.Validate", "User.Validate", "UserClaims.Validate", "ParseServerVersion", "Operator.validateAccountServerURL", "ValidateOperatorServiceURL", "Operator.validateOperatorServiceURLs", "Operator.Validate", "OperatorClaims.Validate", "OperatorClaims.ExpectedPrefixes", "AccountClaims.ExpectedPrefixes", "UserClaims.ExpectedPrefixes", "ActivationClaims.ExpectedPrefixes", "AuthorizationRequestClaims.ExpectedPrefixes", "AuthorizationResponseClaims.ExpectedPrefixes", "GenericClaims.ExpectedPrefixes", "v1OperatorClaims.migrateV1", "v1UserClaims.migrateV1", "v1ActivationClaims.migrateV1", "SigningKeys.Add", "v1AccountClaims.migrateV1", "v1OperatorClaims.Migrate", "v1UserClaims.Migrate", "v1ActivationClaims.Migrate", "v1AccountClaims.Migrate", "loadOperator", "loadAccount", "loadUser", "loadActivation", "loadAuthorizationRequest", "loadAuthorizationResponse", "loadClaims", "ClaimsData.verify", "parseHeaders", "Decode", "UserClaims.Encode", "ActivationClaims.Encode", "OperatorClaims.Encode", "AccountClaims.Encode", "GenericClaims.Encode", "AuthorizationRequestClaims.Encode", "AuthorizationResponseClaims.Encode", "OperatorClaims.updateVersion", "AccountClaims.updateVersion", "UserClaims.updateVersion", "ActivationClaims.updateVersion", "AuthorizationRequestClaims.updateVersion", "AuthorizationResponseClaims.updateVersion", "DecodeOperatorClaims", "DecodeAccountClaims", "DecodeUserClaims", "DecodeAuthorizationRequestClaims", "DecodeAuthorizationResponseClaims", "UserScope.ValidateScopedSigner", "NewUserClaims", "UserClaims.SetScoped", "UserScope.SigningKey", "SigningKeys.AddScopedSigner", "SigningKeys.GetScope", "SigningKeys.Remove", "SigningKeys.Keys", "DecodeGeneric", "IssueUserJWT", "Exports.Len", "Exports.Less", "Imports.Len", "Imports.Less", "AccountClaims.ClaimType", "ActivationClaims.ClaimType", "AuthorizationRequestClaims.ClaimType", "AuthorizationResponseClaims.ClaimType", "IsGenericClaimType", "OperatorClaims.ClaimType", "UserClaims.ClaimType", "NewAccountClaims", "NewActivationClaims", "NewAuthorizationRequestClaims", "NewAuthorizationResponseClaims", "NewGenericClaims", "NewOperatorClaims", "NewUserScope", "ExternalAuthorization.IsEnabled", "Account.HasExternalAuthorization", "Account.EnableExternalAuthorization", "OperatorLimits.IsJSEnabled", "AccountLimits.IsUnlimited", "OperatorLimits.IsUnlimited", "UserClaims.IsBearerToken", "AccountClaims.GetTags", "OperatorClaims.GetTags", "UserClaims.GetTags", "ValidationResults.Errors", "ValidationResults.Warnings", "ExportType.String", "ScopeType.String", "Exports.Add", "Imports.Add", "Account.AddMapping", "ValidationIssue.Error",
+		"UserScope.Validate", "SigningKeys.Validate", "Account.Validate", "AccountClaims.Validate", "GenericClaims.Validate", "AuthorizationRequestClaims.Validate", "AuthorizationResponseClaims.Validate", "TimeRange.Validate", "Limits.Validate", "User.Validate", "UserClaims.Validate", "ParseServerVersion", "Operator.validateAccountServerURL", "ValidateOperatorServiceURL", "Operator.validateOperatorServiceURLs", "Operator.Validate", "OperatorClaims.Validate", "OperatorClaims.ExpectedPrefixes", "AccountClaims.ExpectedPrefixes", "UserClaims.ExpectedPrefixes", "ActivationClaims.ExpectedPrefixes", "AuthorizationRequestClaims.ExpectedPrefixes", "AuthorizationResponseClaims.ExpectedPrefixes", "GenericClaims.ExpectedPrefixes", "v1OperatorClaims.migrateV1", "v1UserClaims.migrateV1", "v1ActivationClaims.migrateV1", "SigningKeys.Add", "v1AccountClaims.migrateV1", "v1OperatorClaims.Migrate", "v1UserClaims.Migrate", "v1ActivationClaims.Migrate", "v1AccountClaims.Migrate", "loadOperator", "loadAccount", "loadUser", "loadActivation", "loadAuthorizationRequest", "loadAuthorizationResponse", "loadClaims", "ClaimsData.verify", "parseHeaders", "Decode", "UserClaims.Encode", "ActivationClaims.Encode", "OperatorClaims.Encode", "AccountClaims.Encode", "GenericClaims.Encode", "AuthorizationRequestClaims.Encode", "AuthorizationResponseClaims.Encode", "OperatorClaims.updateVersion", "AccountClaims.updateVersion", "UserClaims.updateVersion", "ActivationClaims.updateVersion", "AuthorizationRequestClaims.updateVersion", "AuthorizationResponseClaims.updateVersion", "DecodeOperatorClaims", "DecodeAccountClaims", "DecodeUserClaims", "DecodeAuthorizationRequestClaims", "DecodeAuthorizationResponseClaims", "UserScope.ValidateScopedSigner", "NewUserClaims", "UserClaims.SetScoped", "UserScope.SigningKey", "SigningKeys.AddScopedSigner", "SigningKeys.GetScope", "SigningKeys.Remove", "SigningKeys.Keys", "DecodeGeneric", "IssueUserJWT", "Exports.Len", "Exports.Less", "Imports.Len", "Imports.Less", "ActivationClaims.HashID", "AccountClaims.ClaimType", "ActivationClaims.ClaimType", "AuthorizationRequestClaims.ClaimType", "AuthorizationResponseClaims.ClaimType", "IsGenericClaimType", "OperatorClaims.ClaimType", "UserClaims.ClaimType", "NewAccountClaims", "NewActivationClaims", "NewAuthorizationRequestClaims", "NewAuthorizationResponseClaims", "NewGenericClaims", "NewOperatorClaims", "NewUserScope", "ExternalAuthorization.IsEnabled", "Account.HasExternalAuthorization", "Account.EnableExternalAuthorization", "OperatorLimits.IsJSEnabled", "AccountLimits.IsUnlimited", "OperatorLimits.IsUnlimited", "UserClaims.IsBearerToken", "AccountClaims.GetTags", "OperatorClaims.GetTags", "UserClaims.GetTags", "ValidationResults.Errors", "ValidationResults.Warnings", "ExportType.String", "ScopeType.String", "Exports.Add", "Imports.Add", "Account.AddMapping", "ValidationIssue.Error",
 	},
 	"V1": {
 		"Subject.HasWildCards", "Subject.IsContainedIn", "cleanSubject",
@@ -58,7 +59,7 @@ var fnWhitelist = map[string][]string{
 		"OperatorClaims.Claims", "AccountClaims.Claims", "UserClaims.Claims", "ActivationClaims.Claims", "ClusterClaims.Claims", "ServerClaims.Claims", "GenericClaims.Claims",
 		"OperatorClaims.ExpectedPrefixes", "AccountClaims.ExpectedPrefixes", "UserClaims.ExpectedPrefixes", "ActivationClaims.ExpectedPrefixes", "ClusterClaims.ExpectedPrefixes", "ServerClaims.ExpectedPrefixes", "GenericClaims.ExpectedPrefixes",
 		"ClaimsData.Verify", "parseHeaders", "Decode",
-		"Operator.validateAccountServerURL", "UserClaims.Encode", "ActivationClaims.Encode", "ClusterClaims.Encode", "ServerClaims.Encode", "OperatorClaims.Encode", "AccountClaims.Encode", "GenericClaims.Encode",
+		"Operator.validateAccountServerURL", "ActivationClaims.HashID", "UserClaims.Encode", "ActivationClaims.Encode", "ClusterClaims.Encode", "ServerClaims.Encode", "OperatorClaims.Encode", "AccountClaims.Encode", "GenericClaims.Encode",
 	},
 }
 
@@ -115,6 +116,7 @@ type fnCtx struct {
 	ptrInner map[string]string     // nilable pointers reached through a computation: the `Option T` value inside a do block
 	closures map[types.Object]bool // local function literals (single-return, pure)
 	nilVars  map[types.Object]bool // local / range variables holding nilable pointers
+	hashVars map[types.Object]string // local hash accumulators (h := sha256.New()): the opaque digest applied by Sum(nil)
 }
 
 func (g *fnGen) leanType(t types.Type) string {
@@ -257,6 +259,9 @@ var opaqueFns = map[string]bool{"UserClaims.HasEmptyPermissions": true, "parseCl
 // foreignOpaque: functions of other packages that translated code may call; each becomes a field of `Opq`
 // (name, Lean type of the field, and how a two-value result is read)
 var foreignOpaque = map[string]string{
+	"sha256.Sum":                     "(List Int) → (List Int)",              // the digest of everything written to a sha256.New()
+	"sha512.Sum512_256":              "(List Int) → (List Int)",
+	"base32.StdEncode":               "(List Int) → Str",                     // base32.StdEncoding.EncodeToString
 	"time.NowAddUnix":                "Int → Int",                            // time.Now().Add(d).Unix(): a parameter
 	"strconv.Atoi":                   "Str → Option Int",                     // none = the error result
 	"nkeys.FromPublicKey":            "Str → Option Nat",                     // none = the error result; a key pair is an uninterpreted handle
@@ -775,6 +780,68 @@ func (g *fnGen) derefNext(body *ast.BlockStmt, def ast.Stmt, o types.Object) boo
 		return true
 	})
 	return res
+}
+
+func (g *fnGen) needForeign(q string) {
+	if g.foreign == nil {
+		g.foreign = map[string]bool{}
+	}
+	if !g.foreign[q] {
+		g.foreign[q] = true
+		g.foreignOrd = append(g.foreignOrd, q)
+	}
+}
+
+// sprintfConcat: fmt.Sprintf("a%sb%s", x, y) with string arguments only, as a concatenation
+func (c *fnCtx) sprintfConcat(x *ast.CallExpr) (ex, bool) {
+	if len(x.Args) == 0 {
+		return ex{}, false
+	}
+	lit, ok := x.Args[0].(*ast.BasicLit)
+	if !ok || lit.Kind != token.STRING {
+		return ex{}, false
+	}
+	f, err := strconv.Unquote(lit.Value)
+	if err != nil {
+		return ex{}, false
+	}
+	var pieces []ex
+	arg := 1
+	cur := ""
+	flush := func() {
+		if cur != "" {
+			pieces = append(pieces, ex{leanStr(cur), false})
+			cur = ""
+		}
+	}
+	for i := 0; i < len(f); i++ {
+		if f[i] != '%' {
+			cur += string(f[i])
+			continue
+		}
+		if i+1 >= len(f) || f[i+1] != 's' || arg >= len(x.Args) || !isString(c.typeOf(x.Args[arg])) {
+			return ex{}, false
+		}
+		flush()
+		pieces = append(pieces, c.expr(x.Args[arg]))
+		arg++
+		i++
+	}
+	flush()
+	if arg != len(x.Args) || len(pieces) == 0 {
+		return ex{}, false
+	}
+	anyM := false
+	var ps []string
+	for _, p := range pieces {
+		anyM = anyM || p.m
+		ps = append(ps, p.bind())
+	}
+	r := "(" + strings.Join(ps, " ++ ") + ")"
+	if anyM {
+		return ex{"(do pure " + r + ")", true}, true
+	}
+	return ex{r, false}, true
 }
 
 // nowAddArg: d when e is `time.Now()[.UTC()].Add(d)[.UTC()]`
@@ -1407,7 +1474,23 @@ func (c *fnCtx) call(x *ast.CallExpr) ex {
 			return ex{"now", false}
 		}
 		if qual == "fmt.Sprintf" {
+			// a literal format made of plain text and %s verbs over string arguments is exact concatenation;
+			// anything else is message text, which is not modelled
+			if parts, ok := c.sprintfConcat(x); ok {
+				return parts
+			}
 			return ex{"([] : Str)", false} // message text is not modelled
+		}
+		// h.Sum(nil) on a hash accumulator; base32.StdEncoding.EncodeToString(x)
+		if id, ok := se.X.(*ast.Ident); ok && se.Sel.Name == "Sum" && len(x.Args) == 1 && c.isNilExpr(x.Args[0]) {
+			if o := c.g.p.TypesInfo.Uses[id]; o != nil && c.hashVars[o] != "" {
+				c.g.needForeign(c.hashVars[o])
+				return ex{"(opq." + strings.ReplaceAll(c.hashVars[o], ".", "_") + " " + c.nameOf(o) + ")", false}
+			}
+		}
+		if types.ExprString(x.Fun) == "base32.StdEncoding.EncodeToString" && len(x.Args) == 1 {
+			c.g.needForeign("base32.StdEncode")
+			return c.pureApp("opq.base32_StdEncode", c.expr(x.Args[0]))
 		}
 		if se.Sel.Name == "Hostname" && len(x.Args) == 0 && c.g.leanTypeQuiet(c.typeOf(se.X)) == "T_url_URL" {
 			a := c.expr(se.X)
@@ -1967,6 +2050,14 @@ func (c *fnCtx) stmt(b *block, s ast.Stmt) {
 		if !ok {
 			unsup("expression statement")
 		}
+		if se, ok := call.Fun.(*ast.SelectorExpr); ok && se.Sel.Name == "Write" && len(call.Args) == 1 {
+			if id, ok := se.X.(*ast.Ident); ok {
+				if o := c.g.p.TypesInfo.Uses[id]; o != nil && c.hashVars[o] != "" {
+					b.add("%s := (%s ++ %s)", c.nameOf(o), c.nameOf(o), c.expr(call.Args[0]).bind())
+					return
+				}
+			}
+		}
 		if id, ok := call.Fun.(*ast.Ident); ok && id.Name == "delete" {
 			m, k := c.expr(call.Args[0]), c.expr(call.Args[1])
 			c.store(b, call.Args[0], "(mapDelete "+m.bind()+" "+k.bind()+")")
@@ -2347,6 +2438,23 @@ func (c *fnCtx) assign(b *block, x *ast.AssignStmt) {
 				app := c.callFn(call, fi)
 				c.assignVar(b, o, "(← "+app.bind()+")")
 				return
+			}
+		}
+	}
+	// h := sha256.New(): a hash accumulator is the list of bytes written so far; Sum(nil) hands it to the opaque digest
+	if len(x.Lhs) == 1 && len(x.Rhs) == 1 && x.Tok == token.DEFINE {
+		if call, ok := x.Rhs[0].(*ast.CallExpr); ok && len(call.Args) == 0 {
+			if q := types.ExprString(call.Fun); q == "sha256.New" || q == "sha512.New512_256" {
+				if id, ok := x.Lhs[0].(*ast.Ident); ok {
+					o := c.g.p.TypesInfo.Defs[id]
+					if c.hashVars == nil {
+						c.hashVars = map[types.Object]string{}
+					}
+					c.hashVars[o] = map[string]string{"sha256.New": "sha256.Sum", "sha512.New512_256": "sha512.Sum512_256"}[q]
+					c.declared[o] = true
+					b.add("let mut %s : (List Int) := ([] : List Int)", c.nameOf(o))
+					return
+				}
 			}
 		}
 	}
@@ -3023,6 +3131,9 @@ func genFns(infos []pkgInfo) (string, string, map[string]string) {
 						fi.usesOpq, changed = true, true
 					}
 					if q := selName(call.Fun); (q == "json.Unmarshal" || q == "sort.Sort") && !fi.usesOpq {
+						fi.usesOpq, changed = true, true
+					}
+					if q := types.ExprString(call.Fun); (q == "sha256.New" || q == "sha512.New512_256" || q == "base32.StdEncoding.EncodeToString") && !fi.usesOpq {
 						fi.usesOpq, changed = true, true
 					}
 					cal := g.callee(call)
